@@ -374,8 +374,46 @@ def rule_fq2_order(fx, rep):
         rep.check(not bad, 'SHAPE', 'Fq2::partial_cmp', 'partial_cmp = Some(the same lexicographic order) for all nine outcome pairs', '; '.join(sorted(set(bad))[:3]), fx.fn(pp)['span'], construct=pp)
     else:
         rep.fail('SHAPE', 'Fq2::partial_cmp', 'PartialOrd for Fq2 not found')
-    over = [it['name'] for i in fx.impls_of('std::cmp::PartialOrd', FQ2) for it in i['items'] if it['name'] in ('lt', 'le', 'gt', 'ge')]
-    rep.check(not over, 'SHAPE', 'Fq2::PartialOrd:no-overrides', 'lt/gt/le/ge are the std defaults over partial_cmp', 'overridden: %s' % over)
+    # lt / le / gt / ge: the std defaults over partial_cmp, or overrides that are decided like cmp (nine outcome pairs)
+    over = [(it['name'], it['def']) for i in fx.impls_of('std::cmp::PartialOrd', FQ2) for it in i['items'] if it['name'] in ('lt', 'le', 'gt', 'ge')]
+    truth = {'lt': lambda w: w == 'Less', 'le': lambda w: w != 'Greater', 'gt': lambda w: w == 'Greater', 'ge': lambda w: w != 'Less'}
+    comp_truth = dict(truth, eq=lambda w: w == 'Equal', ne=lambda w: w != 'Equal')
+    bad = []
+    for opn, opath in over:
+        if fx.body(opath) is None:
+            bad.append('%s: no body' % opn)
+            continue
+        rep.fn(opath)
+        for o1, o0 in itertools.product(names, repeat=2):
+            def tr(I, fr, t, c, pth, o1=o1, o0=o0):
+                nm = c.get('name')
+                if c.get('self_ty') == FQ2 or c.get('trait') not in ('std::cmp::Ord', 'std::cmp::PartialOrd', 'std::cmp::PartialEq'):
+                    return False
+                pr = comp_pair(fr, t)
+                rel = o1 if pr == (1, 1) else (o0 if pr == (0, 0) else None)
+                if rel is None:
+                    return False
+                if nm in ('cmp', 'partial_cmp'):
+                    v = Agg([], ('std::cmp::Ordering', rel))
+                    fr.storev(t['dest'], v if nm == 'cmp' else exp.Opt('some', v))
+                    return True
+                if nm in comp_truth:
+                    fr.storev(t['dest'], Int(1 if comp_truth[nm](rel) else 0, 1))
+                    return True
+                return False
+            I = exp.Interp(fx, 'none', extra_transfer=tr, inline=lambda q: q in (p, pp))
+            I.fork_inlined = True
+            try:
+                res = I.run(opath, [('byref', Agg(['c0', 'c1'])), ('byref', Agg(['c0', 'c1']))])
+            except (exp.NotDerivable, exp.Budget) as e:
+                bad.append('%s: not derivable: %s' % (opn, e))
+                break
+            want = o1 if o1 != 'Equal' else o0
+            got = [bool(r[1].v) if isinstance(r[1], Int) else repr(r[1]) for r in res]
+            if got != [truth[opn](want)]:
+                bad.append('%s: u-coefficients compare %s and real parts compare %s: returns %s, expected %s' % (opn, o1, o0, got, truth[opn](want)))
+    rep.check(not bad, 'SHAPE', 'Fq2::PartialOrd:operators', 'lt/gt/le/ge are the std defaults over partial_cmp or agree with the lexicographic order on all nine outcome pairs (%d overridden)' % len(over),
+              '; '.join(sorted(set(bad))[:3]))
 
 
 def rule_base_fields(fx, rep):
